@@ -550,3 +550,28 @@ unit(P, target=OF + "Connection.disconnect(defer_event=True) / Connection.close"
      name="a_fatal_send_error_is_reported_closed_exactly_once")(_L.deferred_down_is_raised_by_the_later_close)
 
 import contracts.c10_ioloop   # noqa: registers the C20 unit on the switch I/O loop's write set (pending_bytes_keep_a_worker_in_the_write_set...)
+
+
+# ---------------------------------------------------------------- after a fatal send error the next read() says 'close me'
+# Connection.send defers the announcement to the close() the I/O loop performs when read() returns False; the socket was shut
+# down by disconnect(), so recv() reports end of stream or fails.  read() must then answer False - not True, not None (the loop
+# closes only on `read() is False`; seeded change C20_11 made read() return None for a dead connection: it was never closed,
+# ConnectionDown never raised, and the loop span on the dead socket)
+
+class DeadSock(object):
+  def recv(self, n):
+    if self.mode == "eof":
+      return b""
+    raise OSError(9, "Bad file descriptor")
+
+
+@unit(P, target=OF + "Connection.read (connection already disconnected by a failed send)")
+def reading_a_dead_connection_asks_for_its_close(b):
+  from pox.openflow.of_01 import Connection
+  mode = b.choice("recv_on_the_shut_down_socket", ["eof", "error"])
+  sock = b.raw_new(DeadSock, mode=mode)
+  buffered = b.bytes("buffered", None, 0, 20)
+  con = b.raw_new(Connection, sock=sock, buf=buffered, disconnected=True, ID=1, dpid=5, unpackers=b.list([]), handlers=b.list([]))
+  return Case(Connection.read, [con], raises={}, ensures={
+    "the_answer_is_False": lambda res: res is False,
+  })
